@@ -53,15 +53,30 @@ func waitFor(d time.Duration, cond func() bool) bool {
 	return cond()
 }
 
-func stuckInObserver() string {
+// stuckInObserver: a wedge of the stream observer, as opposed to a slow machine: some goroutine waits for
+// the observer's lock AND the lock cannot be taken for 20 s by a fresh caller either (PrintActiveStreams
+// takes the same lock; under mere contention Go's mutex hands it over within milliseconds).
+func stuckInObserver(o *proxy.ReplicationStreamObserver) string {
 	buf := make([]byte, 8<<20)
 	n := runtime.Stack(buf, true)
+	blocked := ""
 	for _, g := range strings.Split(string(buf[:n]), "\n\n") {
 		if strings.Contains(g, "ReplicationStreamObserver") && (strings.Contains(g, "sync.(*Mutex).Lock") || strings.Contains(g, "semacquire")) {
-			return g
+			blocked = g
+			break
 		}
 	}
-	return ""
+	if blocked == "" || o == nil {
+		return blocked
+	}
+	done := make(chan struct{})
+	go func() { _ = o.PrintActiveStreams(); close(done) }()
+	select {
+	case <-done:
+		return "" // slow, not wedged
+	case <-time.After(20 * time.Second):
+		return blocked + "\n(the observer's lock could not be taken by a fresh caller for 20 s either)"
+	}
 }
 
 func runMeta(c metaCase) (viol []rec.Violation, counts map[string]int64, inconclusive string, log []string) {
@@ -140,7 +155,7 @@ func runMeta(c metaCase) (viol []rec.Violation, counts map[string]int64, inconcl
 		counts["hostile_served"] = 1
 		log = append(log, "hostile open is being served (outgoing stream opened)")
 	default:
-		if g := stuckInObserver(); g != "" {
+		if g := stuckInObserver(observer); g != "" {
 			v("wedged:hostile-open-parked-in-observer", "hostile open neither served nor rejected; a handler goroutine is parked in the stream observer:\n%s", firstLines(g, 12))
 		} else {
 			log = append(log, "hostile open neither returned nor opened an outgoing stream within 2 s (routing mode serves without an immediate outgoing stream)")
@@ -160,7 +175,7 @@ func runMeta(c metaCase) (viol []rec.Violation, counts map[string]int64, inconcl
 				return false
 			}
 		}) {
-			if g := stuckInObserver(); g != "" {
+			if g := stuckInObserver(observer); g != "" {
 				v("wedged:hostile-stream-cannot-end", "hostile stream's handler does not return after both sides ended; parked in the stream observer:\n%s", firstLines(g, 12))
 			} else {
 				inconclusive = "hostile stream's handler did not return within 8 s after both sides ended (no observer wedge visible)"
@@ -173,7 +188,7 @@ func runMeta(c metaCase) (viol []rec.Violation, counts map[string]int64, inconcl
 	ss2, done2, cancel2 := open(goodMD(), "")
 	ok := waitFor(6*time.Second, func() bool { return opensTotal() > before })
 	if !ok {
-		if g := stuckInObserver(); g != "" {
+		if g := stuckInObserver(observer); g != "" {
 			v("wedged:follow-up-stream-blocked-in-observer", "after metadata %v a well-formed stream is not served: its handler is parked in the stream observer's bookkeeping:\n%s", c.MD, firstLines(g, 14))
 		} else {
 			select {
@@ -384,7 +399,7 @@ func concurrentMeta(mode string, rounds int, seed int64) (viol []rec.Violation, 
 		lifeCancel()
 		counts["concurrent_streams"] += int64(3*len(ids) + len(grow))
 		if stuck.Load() > 0 {
-			if g := stuckInObserver(); g != "" {
+			if g := stuckInObserver(observer); g != "" {
 				viol = append(viol, rec.Violation{Prop: "C20", Sig: "wedged:concurrent-stream-parked-in-observer", What: "a stream handler is parked in the stream observer during concurrent opens:\n" + firstLines(g, 12)})
 			} else {
 				inconclusive = "a concurrent stream did not finish within 20 s (no observer wedge visible)"
@@ -402,22 +417,42 @@ func concurrentMeta(mode string, rounds int, seed int64) (viol []rec.Violation, 
 
 func TestMetaConcurrent(t *testing.T) {
 	out := rec.Default()
-	rounds := 60
+	rounds, chunk := 60, 30
 	if rec.Thorough() {
 		rounds = 1500
 	}
 	i, _ := rec.Shard()
 	for _, mode := range []string{"default", "lcm"} {
-		name := fmt.Sprintf("concurrent/%s/%d", mode, i)
-		if rec.Only() != "" && rec.Only() != name {
-			continue
+		// (cases of 30 rounds: a slow machine then stretches many short cases instead of one long one
+		// into the per-case watchdog)
+		for c := 0; c*chunk < rounds; c++ {
+			name := fmt.Sprintf("concurrent/%s/%d/%d", mode, i, c)
+			if rec.Only() != "" && rec.Only() != name {
+				continue
+			}
+			if after := rec.ResumeAfter(); after != "" && strings.HasPrefix(after, "concurrent/") && skipUntil(&after, name) {
+				continue
+			}
+			out.Begin(name, map[string]any{"mode": mode, "rounds": chunk})
+			viol, counts, inc := concurrentMeta(mode, chunk, rec.Mix(rec.Seed(), name))
+			l := rec.Line{Case: name, Viol: viol, Counts: counts, Class: fmt.Sprintf("concurrent/%s", mode)}
+			if inc != "" && len(viol) == 0 {
+				l.Verdict, l.Why = rec.Inconclusive, inc
+			}
+			out.End(l)
 		}
-		out.Begin(name, map[string]any{"mode": mode, "rounds": rounds})
-		viol, counts, inc := concurrentMeta(mode, rounds, rec.Mix(rec.Seed(), name))
-		l := rec.Line{Case: name, Viol: viol, Counts: counts, Class: name}
-		if inc != "" && len(viol) == 0 {
-			l.Verdict, l.Why = rec.Inconclusive, inc
-		}
-		out.End(l)
 	}
+}
+
+var resumeDone bool
+
+// skipUntil: a restarted child skips every case up to and including the one it died in
+func skipUntil(after *string, name string) bool {
+	if resumeDone {
+		return false
+	}
+	if name == *after {
+		resumeDone = true
+	}
+	return true
 }
